@@ -23,6 +23,7 @@ import (
 	"github.com/basecomplextech/baselibrary/buffer"
 	"github.com/basecomplextech/spec"
 
+	"verifharness/engine/guard"
 	"verifharness/engine/refcodec"
 	"verifharness/engine/rng"
 	vg "verifharness/engine/valuegen"
@@ -204,6 +205,32 @@ func Main(regs map[string]Registry) {
 			}
 			d.nontrivial += base.nontrivial
 			out.Encode(Event{Kind: "summary", Case: c, Evals: d.evals, Nontrivial: d.nontrivial, Distinct: len(d.seen), Paths: d.paths})
+			continue
+		}
+		if mode == "hostile" {
+			arena, err := guard.New(1 << 20)
+			if err != nil {
+				fmt.Fprintln(os.Stderr, "guard arena:", err)
+				os.Exit(2)
+			}
+			for i := range d.desc.Defs {
+				def := &d.desc.Defs[i]
+				if onlyDef != "" && def.Key != onlyDef {
+					continue
+				}
+				for k := 0; k < n; k++ {
+					if onlyIdx >= 0 && k != onlyIdx {
+						continue
+					}
+					d.cur.def, d.cur.idx = def.Key, k
+					d.r = rng.New(seed, "C02/gen/"+c+"/"+def.Key, uint64(k))
+					calls := d.hostileOne(def, arena)
+					d.evals += calls
+					d.paths["hostile entry-point calls on "+def.Kind] += calls
+				}
+			}
+			arena.Free()
+			out.Encode(Event{Kind: "summary", Case: c, Evals: d.evals, Nontrivial: len(d.seen), Distinct: len(d.seen), Paths: d.paths})
 			continue
 		}
 		for i := range d.desc.Defs {
